@@ -504,8 +504,9 @@ def native_checks(tier):
 
 def contracts(tier):
     from pyvc.interp import PyRaise  # noqa
-    from . import c08
-    cs = list(c08.scanner_contracts(tier))
+    from . import c08, traversals, writers
+    cs = list(c08.scanner_contracts(tier)) + traversals.contracts(tier) + \
+        writers.contracts(tier)
     for th in ('arithmetic', 'bv', 'datatypes', 'fp', 'strings'):
         cs.append(
             Contract(f'C04/mutators_{th}.is_relevant',
